@@ -34,9 +34,9 @@ SPEC = dict(
     ],
     units=[
         pbt("c01_stream", ["harness/c01_stream.cpp", "harness/c01_interpose_net.cpp"], dict(
-            stream=P(400, 2500, 16, 16, q_secs=45, t_secs=600, extra=_SHRINK),
-            tls=P(150, 900, 16, 16, q_secs=45, t_secs=600, extra=_SHRINK),
-            cuts=P(6, 50, 16, 16, q_secs=45, t_secs=600, extra=_SHRINK),
+            stream=P(400, 8000, 16, 16, q_secs=45, t_secs=800, extra=_SHRINK),
+            tls=P(150, 3000, 16, 16, q_secs=45, t_secs=800, extra=_SHRINK),
+            cuts=P(6, 120, 16, 16, q_secs=45, t_secs=800, extra=_SHRINK),
         )),
     ],
 )
